@@ -1,7 +1,43 @@
 From Coq Require Import ZArith List.
-From Cspuz Require Import Lib.PyErr Core.Expr Core.Program Backend.Z3Call Backend.Z3.
-Theorem bounds_as_posted : forall i lo hi,
-  py_bin PLe (PyI lo) (ZT (ZIntConst i)) = Ok (ZT (ZGe (ZIntConst i) (ZIntVal lo))) /\
-  py_bin PLe (ZT (ZIntConst i)) (PyI hi) = Ok (ZT (ZLe (ZIntConst i) (ZIntVal hi))).
-Proof. intros; split; reflexivity. Qed.
-Print Assumptions bounds_as_posted.
+From Cspuz Require Import Lib.PyErr Core.Expr Core.Program Backend.Z3Call Gen.Z3Table Backend.Z3 Backend.Z3Oracle
+  Backend.Z3Proofs Backend.Z3ConstsProofs Backend.Z3SolveProofs Backend.Z3OracleProofs.
+
+(* every well-typed tree (bool- or int-valued, any nesting, n-ary forms, Python literals as
+   operands, *_CONSTANT nodes, constant-only alldifferent) converts without an exception and
+   without falling through to None, and the z3 meaning of the result equals the ordinary
+   meaning of the tree under every assignment *)
+Theorem conv_correct : forall vs e b, wt b e = true -> refs_ok vs e = true ->
+  exists r, conv vs e = Ok r /\
+    match r with PyB _ => b = true | PyI _ => b = false | PyN => False | ZT _ => True end /\
+    forall en, zres_eval en r = eval no_graph en e.
+Proof. exact conv_sem. Qed.
+Print Assumptions conv_correct.
+
+(* the constants of a converted tree are declared variables of the right sort, so every
+   query Z3Backend.solve makes carries both bounds for each integer constant it mentions *)
+Theorem queries_are_bounded : forall vs cs rs ts, wf_cons vs cs ->
+  mapM (conv vs) cs = Ok rs -> mapM top_cast rs = Ok ts -> boundedb (bound_terms vs ++ ts) = true.
+Proof. exact queries_are_bounded_lemma. Qed.
+Print Assumptions queries_are_bounded.
+
+(* find_answer: verdict <-> satisfiable; the sol values are in bounds, of the variables'
+   types and satisfy every constraint -- for ANY solver meeting the two hypotheses *)
+Theorem find_answer_correct : forall oracle, oracle_sound_on oracle -> oracle_complete_on oracle ->
+  forall st, wf_state st ->
+  exists r, find_answer oracle st = Ok r /\
+    (r <> None <-> satisfiable no_graph st) /\
+    (forall s, r = Some s -> model_of no_graph (env_of_sol s) st /\ sol_typed (vars st) s).
+Proof. exact Z3SolveProofs.find_answer_correct. Qed.
+Print Assumptions find_answer_correct.
+
+(* the same after every prefix of an incremental session *)
+Theorem session_correct : forall oracle, oracle_sound_on oracle -> oracle_complete_on oracle ->
+  forall ops s, wf_state (s_st s) -> wf_ops (s_st s) ops ->
+  Forall (fun so => outcome_ok (fst so) (snd so)) (trace oracle s ops).
+Proof. exact Z3SolveProofs.session_correct. Qed.
+Print Assumptions session_correct.
+
+(* the hypotheses are satisfiable: the executable brute-force oracle meets both *)
+Theorem oracle_hypotheses_satisfiable : oracle_sound_on bf_oracle /\ oracle_complete_on bf_oracle.
+Proof. exact (conj bf_oracle_sound bf_oracle_complete). Qed.
+Print Assumptions oracle_hypotheses_satisfiable.
